@@ -62,6 +62,18 @@ CLAIMS = {
             '--no-default-features build of the harness on the corpora of C01/C03/C06/C13-C15 (JIT from caller-supplied executable memory) and requiring '
             'identical transcripts.',
             'Helpers that exist only with std are outside the comparison.'),
+    'C13': ('proof', 'Theorems C13_instruction / C13_program: for every mnemonic string and every operand list with 64-bit operand values, the instruction map '
+            '(regenerated by partial evaluation of make_instruction_map), encode, insn and the lddw second slot regenerated from assembler.rs give exactly '
+            'the slots of the independently written specification AsmSpec.denote (table by ISA numbering, shapes, range limits, lddw split, unused fields '
+            'zero) and an error exactly when it gives none; whole inputs: bytes = specified encoding of the parsed text in source order, or Err and no bytes. '
+            'PARTIAL for spellings: text -> (mnemonic, operand values) is the hand-modelled parser; number spellings / whitespace are covered by the '
+            'correspondence (model = implementation = specification = bytes computed independently by the generator), not by a grammar theorem.',
+            'asm_parser.rs hand-modelled (tie B); Unicode classes taken from the implementation.'),
+    'C16': ('proof', 'PARTIAL. Theorems C16_text_is_specified (the text handed to the assembler is the C15-specified rendering, for every program in the domain), '
+            'C16_bytes_of_parsed_text (C13: bytes = specified encoding of whatever that text parses to) and C16_no_panic; the closing lemma '
+            'parse(render i) = operands of i is evaluated on every generated program (composed model = real disassemble+assemble = canonical-form '
+            'specification: canonical expressible programs reproduce exactly, others give their canonical form or are rejected), not proved for all field values.',
+            'Closing lemma of the round trip not proved (see DESIGN.md).'),
     'C14': ('proof', 'Theorem C14_assemble_total: for every input string (any Unicode scalar values, any classification of the non-ASCII ones) the assembler '
             'model returns Ok or Err -- never a panic (integer parsing, sign multiplication, operands[1], insn().unwrap()) and never fuel exhaustion (bounded time). '
             'Model: asm_parser.rs hand-modelled with the combine 4.6 semantics (committed / uncommitted failure, attempt, optional, or, many, sep_by, not_followed_by); '
